@@ -6,7 +6,7 @@ Line protocol for C06 (see harness/c06.py). The driver is stateful:
   sys <rows: coefs;coefs;...> <discs: i,i|i,...>                                 -> ok
   cfg <j|g|n> <res idx> <groups i,i|i> <warm idx> <tol> <maxit> <scal 0..5> <omega> <none|aitken|secant|adsq> <warm 0|1>
                                                                                   -> ok   (fresh MDA object)
-  run <fuel> <consts> <start>   -> <converged|maxIter|nan|capped> it=<n> hist=<squared normed residuals> raw=<squared residual norms> out=<data>
+  run <fuel> <consts> <start>   -> <converged|maxIter|nan|capped> it=<n> hist=<squared normed residuals> raw=<squared residual norms> out=<data> ref=<c:min|cᵢ| / g:min‖r₀ⁱ‖² / ->
 `run` executes the current MDA object once more (scaling data and last outputs are kept).
   io <nvars> <vars: comps i,i|i,..> <reads: v,v|v,..> <writes: v,v|v,..>
         -> sc=<strong coupling variables> res=<their components> groups=<positions>   (remembered: `auto` in cfg / grp)
@@ -14,6 +14,16 @@ Line protocol for C06 (see harness/c06.py). The driver is stateful:
   grp <discs i,i|i> <self 0|1> <ismda 0|1> <j|g|n> <res|auto> <groups|auto> <scal> <omega> <accel> <chain k=v,..> <given k=v,..|[]>
         -> ok mda=<0|1> tol=<r> maxit=<n> warm=<0|1>       (appends a component to the chain; `sys` clears them)
   chain <fuel> <consts> <start>  -> out=<data> then, per inner MDA, ` ; <outcome> it=<n> hist=<..> raw=<..>`
+  stage <j|g|n> <res|auto> <groups|auto> <warm idx|auto> <tol> <maxit> <scal> <omega> <accel> <warm 0|1>
+        -> ok      (appends a sub-MDA object, with ITS settings, to the sequence; `sys` clears it)
+  seq <tolerance of the sequence> <fuel> <consts> <start>
+        -> out=<data> then, per EXECUTED sub-MDA, ` ; <outcome> it=<n> hist=<..> raw=<..>`   (first execution)
+Sessions of several MDA objects (settings only, `GV.C06.World`); every answer is the whole world
+`<id>:<tolerance>,<max_mda_iter>[<sub tolerance>,<sub max_mda_iter>|...] ...` (`empty` when nothing is built):
+  sreset | sshow
+  snew <id> <c|g|s|e> <own k=v,..> <given k=v,..|[];...|none>   (one `given` per inner MDA / stage; `none`: no sub-MDA)
+  sset <id> <field> <value>            mda.settings.<field> = value
+  ssub <id> <j> <field> <value>        mda.<inner_mdas|mda_sequence>[j].settings.<field> = value
 -/
 
 structure D where
@@ -25,6 +35,9 @@ structure D where
   /-- resolved components / positions computed by the last `io` line -/
   auto : List Nat × List (List Nat) := ([], [])
   chainGroups : List Group := []
+  stages : List (Cfg × MState) := []
+  world : World := fun _ => none
+  ids : List Nat := []
 
 def parseGroups (s : String) : Option (List (List Nat)) :=
   if s = "[]" then some [] else (s.splitOn "|").mapM parseNatList?
@@ -58,12 +71,79 @@ def showOpt : Option Rat → String
 def showOutcome : Outcome → String
   | .converged => "converged" | .maxIter => "maxIter" | .nan => "nan" | .capped => "capped"
 
+def rabs (t : Rat) : Rat := if t < 0 then -t else t
+
+def minAbs : List Rat → Rat
+  | [] => 1
+  | [t] => rabs t
+  | t :: ts => if rabs t ≤ minAbs ts then rabs t else minAbs ts
+
+/-- The smallest reference of a component-wise / variable-wise scaling (`c:` min |cᵢ|, `g:` min ‖r₀ⁱ‖²): the harness
+    sizes the float noise of a normed residual with it (information only, no verdict depends on its exact value). -/
+def showRef : Option ScalData → String
+  | some (.comps c) => s!"c:{showRat (minAbs c)}"
+  | some (.groups g) => s!"g:{showRat (minAbs g)}"
+  | _ => "-"
+
+def parseKind : String → Option Kind
+  | "c" => some .chain | "g" => some .gsNewton | "s" => some .sequential | "e" => some .elementary | _ => none
+
+def parseGiven (s : String) : Option (List Settings) :=
+  if s = "none" then some [] else (s.splitOn ";").mapM parseSettings
+
+def showSettingsPair (s : Settings) : String :=
+  s!"{showOpt (s.get? "tolerance")},{showOpt (s.get? "max_mda_iter")}"
+
+def showWorld (w : World) (ids : List Nat) : String :=
+  if ids.isEmpty then "empty" else
+  " ".intercalate (ids.filterMap (fun i => (w i).map (fun o =>
+    s!"{i}:{showSettingsPair o.own}[{"|".intercalate (o.subs.map showSettingsPair)}]")))
+
+def applyOp (d : D) (op : WOp) : D × String :=
+  let w := wstep d.world op
+  let ids := if d.ids.contains op.target then d.ids else d.ids ++ [op.target]
+  ({ d with world := w, ids := ids }, showWorld w ids)
+
 def step' (d : D) (line : String) : D × String :=
   match tokens line with
+  | ["sreset"] => ({ d with world := fun _ => none, ids := [] }, "empty")
+  | ["sshow"] => (d, showWorld d.world d.ids)
+  | ["snew", id, kind, own, given] =>
+    match id.toNat?, parseKind kind, parseSettings own, parseGiven given with
+    | some id, some kind, some own, some given => applyOp d (.create id kind own given)
+    | _, _, _, _ => (d, "bad-snew")
+  | ["sset", id, field, v] =>
+    match id.toNat?, parseRat? v with
+    | some id, some v => applyOp d (.assign id field v)
+    | _, _ => (d, "bad-sset")
+  | ["ssub", id, j, field, v] =>
+    match id.toNat?, j.toNat?, parseRat? v with
+    | some id, some j, some v => applyOp d (.assignSub id j field v)
+    | _, _, _ => (d, "bad-ssub")
+  | ["stage", algo, res, groups, widx, tol, maxit, scal, omega, acc, warm] =>
+    let res? := if res = "auto" then some d.auto.1 else parseNatList? res
+    let groups? := if groups = "auto" then some d.auto.2 else parseGroups groups
+    let widx? := if widx = "auto" then some d.auto.1 else parseNatList? widx
+    match parseAlgo algo, res?, groups?, widx?, parseRat? tol,
+          maxit.toNat?, parseScaling scal, parseRat? omega, parseAccel acc with
+    | some algo, some res, some groups, some widx, some tol, some maxit, some scal, some omega, some acc =>
+      let c : Cfg := { algo := algo, res := res, groups := groups, warmIdx := widx, tol := tol, maxIter := maxit,
+                       scaling := scal, omega := omega, accel := acc, warmStart := warm == "1" }
+      ({ d with stages := d.stages ++ [(c, {})] }, "ok")
+    | _, _, _, _, _, _, _, _, _ => (d, "bad-stage")
+  | ["seq", otol, fuel, consts, start] =>
+    match parseRat? otol, fuel.toNat?, parseRatList? consts, parseRatList? start with
+    | some otol, some fuel, some consts, some start =>
+      let sys : Sys := ⟨List.zipWith (fun (r : Row) k => { r with const := k }) d.sys.rows consts, d.sys.discs⟩
+      let (out, runs) := seqExecute sys otol fuel d.stages start []
+      let segs := runs.map (fun r =>
+        s!" ; {showOutcome r.outcome} it={r.hist.length} hist={showRatList r.hist} raw={showRatList r.raw} ref={showRef r.sd}")
+      (d, s!"out={showRatList out}{String.join segs}")
+    | _, _, _, _ => (d, "bad-seq")
   | ["sys", rows, discs] =>
     match parseRows rows, parseGroups discs with
     | some rows, some discs =>
-      ({ d with sys := ⟨rows.map (fun c => ⟨0, c⟩), discs⟩, cfg := none, st := {}, chainGroups := [] }, "ok")
+      ({ d with sys := ⟨rows.map (fun c => ⟨0, c⟩), discs⟩, cfg := none, st := {}, chainGroups := [], stages := [] }, "ok")
     | _, _ => (d, "bad-sys")
   | ["io", nvars, vars, reads, writes] =>
     match nvars.toNat?, parseGroups vars, parseGroups reads, parseGroups writes with
@@ -102,7 +182,7 @@ def step' (d : D) (line : String) : D × String :=
       let sys : Sys := ⟨List.zipWith (fun (r : Row) k => { r with const := k }) d.sys.rows consts, d.sys.discs⟩
       let (out, runs) := chainExecute sys d.chainGroups fuel start
       let segs := runs.map (fun r =>
-        s!" ; {showOutcome r.outcome} it={r.hist.length} hist={showRatList r.hist} raw={showRatList r.raw}")
+        s!" ; {showOutcome r.outcome} it={r.hist.length} hist={showRatList r.hist} raw={showRatList r.raw} ref={showRef r.sd}")
       (d, s!"out={showRatList out}{String.join segs}")
     | _, _, _ => (d, "bad-chain")
   | ["cfg", algo, res, groups, widx, tol, maxit, scal, omega, acc, warm] =>
@@ -119,16 +199,16 @@ def step' (d : D) (line : String) : D × String :=
   | ["run", fuel, consts, start] =>
     match d.cfg, fuel.toNat?, parseRatList? consts, parseRatList? start with
     | some c, some fuel, some consts, some start =>
-      if d.poisoned then (d, "capped it=0 hist=[] raw=[] out=[]") else
+      if d.poisoned then (d, "capped it=0 hist=[] raw=[] out=[] ref=-") else
       let sys : Sys := ⟨List.zipWith (fun (r : Row) k => { r with const := k }) d.sys.rows consts, d.sys.discs⟩
       let r := execute sys c fuel d.st start
       let st' : MState := { sd := r.sd, lastOut := some r.data }
       if r.outcome == .capped then
         ({ d with poisoned := true },
-          s!"capped it={r.hist.length} hist={showRatList r.hist} raw={showRatList r.raw} out=[]")
+          s!"capped it={r.hist.length} hist={showRatList r.hist} raw={showRatList r.raw} out=[] ref=-")
       else
       ({ d with st := st' },
-        s!"{showOutcome r.outcome} it={r.hist.length} hist={showRatList r.hist} raw={showRatList r.raw} out={showRatList r.data}")
+        s!"{showOutcome r.outcome} it={r.hist.length} hist={showRatList r.hist} raw={showRatList r.raw} out={showRatList r.data} ref={showRef r.sd}")
     | _, _, _, _ => (d, "bad-run")
   | _ => (d, "bad-op")
 
